@@ -30,8 +30,8 @@ CHECKS = {
                  "(programs, schedule, GOMAXPROCS). The fphistory job lets ONE pooled canonicaliser analyse 2 000-90 000 functions in a row and compares every "
                  "repetition of a function with its first analysis (prior history of the process). The fpstress job repeats the workload free-running under the race detector."),
         "jobs": [
-            {"engine": "fpsim", "bin": "diff", "test": "TestVerifC01", "cfg": {}, "cpu": 4, "weight": 12, "vary": "universe"},
-            {"engine": "fpsim", "bin": "diff", "test": "TestVerifC01", "cfg": {"universe": "1"}, "cpu": 4, "weight": 2},
+            {"engine": "fpsim", "bin": "diff", "test": "TestVerifC01", "cfg": {}, "cpu": 4, "weight": 12, "vary": "universe", "witness_sound": True},
+            {"engine": "fpsim", "bin": "diff", "test": "TestVerifC01", "cfg": {"universe": "1"}, "cpu": 4, "weight": 2, "witness_sound": True},
             {"engine": "fphistory", "bin": "diff", "test": "TestVerifC01History", "cfg": {}, "cpu": 2, "weight": 2, "max_workers": 2},
             {"engine": "fpstress", "bin": "diff_race", "test": "TestVerifC01Stress", "cfg": {}, "race": True, "cpu": 8, "weight": 2},
         ],
@@ -67,7 +67,7 @@ CHECKS = {
                  "map order, fresh pooled state) and tape-driven executions that vary the release order of the per-file workers, GOMAXPROCS in {1,2,4,16}, the iteration order of "
                  "every map range in repository code and the pooled canonicaliser handed to each acquisition; outputs must be byte-identical. Non-trivial = at least one scheduling "
                  "choice point or non-identity map order; distinct = distinct (input, command, options, schedule traces)."),
-        "jobs": [{"engine": "clisim", "bin": "cli", "test": "TestVerifC10", "cfg": {}, "cpu": 4, "thorough_cfg": {"corpus": "400"}}],
+        "jobs": [{"engine": "clisim", "bin": "cli", "test": "TestVerifC10", "cfg": {}, "cpu": 4, "thorough_cfg": {"corpus": "400"}, "witness_sound": True}],
         "assumptions": ["map iteration and goroutines inside dependencies (x/tools, go/types, Pebble) are not steered, only sampled by repetition"],
         "real_vs_stub": {"code_under_test": "real (internal/cli, pkg/diff, pkg/analysis, pkg/detection, storage backends; instrumented R1,R2)",
                          "go_packages_loader": "real (go list child process, SSA builder)", "worker_scheduling": "simulated (synctest bubble + park points in the FileSystem seam and the pool)",
